@@ -137,6 +137,8 @@ def split_const(A):
         return others[0], (_const(ks[0]) if ks else 0)
     if not others and len(ks) == 1:
         return '0', _const(ks[0])
+    if len(others) > 1 and len(ks) == 1:
+        return '(' + ' + '.join(sorted(others)) + ')', _const(ks[0])
     return A, 0
 
 
